@@ -44,9 +44,23 @@ def stepC03 (ts : List String) : String :=
     | _, _, _ => "bad-op"
   | _ => "bad-op"
 
+def showRun (r : Plan.Run) : String :=
+  let bs := " ".intercalate (r.yielded.map (fun b => s!"{b.ii} {b.off} {b.len}"))
+  let e := match r.err with | none => "none" | some e => e.name
+  s!"run {r.yielded.length} {bs} {e}".replace "  " " "
+
+def stepC01 (ts : List String) : String :=
+  match ts with
+  | ["run", g, s, n, k, N] =>
+    match g.toNat?, s.toNat?, n.toNat?, k.toNat?, N.toNat? with
+    | some g, some s, some n, some k, some N => showRun (Plan.runPlan g s n k N)
+    | _, _, _, _, _ => "bad-op"
+  | _ => "bad-op"
+
 def step (line : String) : String :=
   match (line.trimAscii.toString.splitOn " ").filter (· ≠ "") with
   | "C03" :: rest => stepC03 rest
+  | "C01" :: rest => stepC01 rest
   | _ => "bad-op"
 
 partial def loop (h : IO.FS.Stream) (out : IO.FS.Stream) : IO Unit := do
